@@ -641,12 +641,20 @@ func (s *rolesSuite) doReq(api, handler string, opts map[string]string) string {
 		s.el.addr = hostOf(s.okSrv.URL)
 	case "err":
 		s.el.addr = hostOf(s.errSrv.URL)
+	case "none":
+		// no holder observed yet (start-up, or the previous leader released the lock): this is what the resource lock's
+		// Describe() answers then
+		s.el.addr = "empty"
 	default:
 		s.el.addr = s.downAddr
 	}
 	s.el.mu.Unlock()
 	s.px.mu.Lock()
-	s.px.enabled, s.px.lb, s.px.calls = opts["proxy"] == "1", lb, nil
+	pxlb := lb
+	if pxlb == "none" {
+		pxlb = "down" // the proxy has no client for a leader nobody has named
+	}
+	s.px.enabled, s.px.lb, s.px.calls = opts["proxy"] == "1", pxlb, nil
 	s.px.mu.Unlock()
 	s.rec.reset()
 
